@@ -1036,6 +1036,9 @@ def check(ctx):
         ("api-consts", [T0, C.Func(0, R("type", index=0), [], sum([[I("i32.const", v), I("drop")] for v in
                         (63, 64, -64, -65, 127, 128, -128, -129, 2**31 - 1, -2**31)], []) + sum([[I("i64.const", v), I("drop")] for v in
                         (2**62, -2**62 - 1, 2**63 - 1, -2**63)], []))]),
+        ("api-table-min0", [C.Table(0, "funcref", 0, None)]),                       # fixed finding: printed as "(table funcref)"
+        ("api-externref-table-min0", [C.Table(0, "externref", 0, None)]),
+        ("api-passive-data-dollar", [C.Memory(0, 1, None), C.Data(0, None, b"$abc"), C.Data(1, None, b"$")]),   # fixed finding
         ("api-many-locals", [T0, C.Func(0, R("type", index=0), [(None, "i32")] * 70 + [(None, "f64")] * 130 + [(None, "i32")], [
             I("local.get", R("local", index=63)), I("local.set", R("local", index=64)), I("local.get", R("local", index=199)),
             I("local.set", R("local", index=128)), I("local.get", R("local", index=200)), I("drop")])]),
@@ -1095,7 +1098,9 @@ def check(ctx):
         bins.append((lab, b))
         # ---- text form (real code only)
         if any(d.__name__ in ("custom", "datacount") for d in m2.definitions):
-            ctx.count("text_skipped_custom_or_datacount")
+            ctx.count("text_skipped_custom_or_datacount")   # Custom/DataCount have no text form in ppci (to_string raises by design)
+        elif any(d.__name__ == "data" and d.mode and d.mode[0].index > 0 for d in m2.definitions):
+            ctx.count("text_skipped_multi_memory")          # memory index > 0 is post-MVP; the text writer has no syntax for it
         else:
             ctx.count("eval_text")
             st, val, s = text_roundtrip(m2)
@@ -1129,6 +1134,19 @@ def check(ctx):
         ctx.count("eval_f64_bits")
         if m2 is not None and py_write(m2)[0] != b:
             ctx.fail("binary:f64-const-bits-changed", f"f64.const {bits:#018x} is rewritten differently", f"{bits:#018x}", bytes=b.hex())
+    # datacount section: the spec puts it between element and code; ppci writes it last
+    m = new_module([C.Type(0, [], []), C.Memory(0, 1, None), C.Func(0, R("type", index=0), [], []), C.Data(0, None, b"x"), C.DataCount(1)])
+    secs = split_sections(m.to_bytes())
+    spec_order = sorted(secs, key=lambda x: 9.5 if x[0] == 12 else x[0])
+    b = join_sections(spec_order)
+    m2, err = py_read(b)
+    ask("read " + hexs(b), "reader", "datacount-spec-order", "ok " + sx_module(m2) if m2 is not None else err)
+    ask("canon " + hexs(b), "canon", "datacount-spec-order", "ok false")
+    ctx.count("eval_datacount_order")
+    if m2 is None or py_write(m2)[0] != b:
+        ctx.fail("binary:datacount-section-order", "a binary with the datacount section where the specification puts it (between element and "
+                 "code section) is rewritten with the datacount section at the end", "datacount-spec-order", bytes=b.hex(),
+                 rewritten=(py_write(m2)[0] or b"").hex() if m2 is not None else err)
     # text: NaN payload / sign, names with quote or line break
     T0 = C.Type(0, [], [])
     for lab, v, kind in (("f32-nan-payload", struct.unpack("<f", struct.pack("<I", 0x7FC00001))[0], "f32"),
@@ -1142,7 +1160,7 @@ def check(ctx):
         if st != "ok" or val != b:
             ctx.fail("text:nan-payload-or-sign-lost", f"{kind}.const NaN with payload/sign is printed as 'nan' and re-parsed as the canonical NaN",
                      lab, bytes=b.hex(), text=s)
-    for lab, nm in (("quote", 'a"b'), ("newline", "a\nb"), ("cr", "a\rb")):
+    for lab, nm in (("quote", 'a"b'), ("newline", "a\nb"), ("cr", "a\rb"), ("trailing-backslash", "a\\")):
         m = new_module([T0, C.Func(0, R("type", index=0), [], []), C.Export(nm, "func", R("func", index=0))])
         b = m.to_bytes()
         st, val, s = text_roundtrip(Module(b))
@@ -1177,6 +1195,8 @@ def check(ctx):
             ctx.count("variant_" + (err[4:] if err else "ok"))
             if m2 is not None:
                 b2, werr = py_write(m2)
+                # writer correspondence on whatever structure the reader produced (also out-of-range immediates etc.)
+                ask("write " + sx_module(m2), "writer", lab + ":rewrite", "ok " + hexs(b2) if b2 is not None else werr)
                 canon_queries.append((lab, b, b2, werr))
     finally:
         resource.setrlimit(resource.RLIMIT_AS, (soft, hard))
@@ -1194,7 +1214,11 @@ def check(ctx):
             ctx.count("eval_canon_oracle")
             if rep == "ok true":
                 ctx.count("canonical_inputs")
-                if b2 != b:
+                if b2 is None:
+                    # canonically encoded but not a valid module (e.g. an i32 immediate of more than 32 bits after a byte flip):
+                    # the writer refuses it; outside the property, the refusal itself is compared with the model above
+                    ctx.count("canonical_but_writer_refuses")
+                elif b2 != b:
                     ctx.fail("binary:canonical-input-not-reproduced", "a canonically encoded binary is not reproduced by read -> write", case,
                              bytes=b.hex()[:4000], rewritten=(b2.hex()[:4000] if b2 is not None else werr))
             elif rep == "ok false":
